@@ -10,6 +10,37 @@ src, kid = os.path.abspath(sys.argv[1]), sys.argv[2]
 wt = "/tmp/confirmb_" + kid
 env = {k: v for k, v in os.environ.items() if k not in ("GOFLAGS", "GOTOOLCHAIN", "GOPROXY", "GOWORK")}
 env["PATH"] = "/usr/bin:/usr/local/go/bin:" + env.get("PATH", "")
+
+def pkgdir_for_demo(wt, demo_file, hint):
+    """Directory whose package clause matches the demo's (the author's meta may name another)."""
+    import re as _re, os as _os
+    m = _re.search(r"^package (\w+)", open(demo_file).read(), _re.M)
+    if not m:
+        return hint
+    want = m.group(1)
+    if want.endswith("_test"):
+        want = want[:-5]
+    def pk(d):
+        for f in sorted(_os.listdir(d)):
+            if f.endswith(".go") and not f.endswith("_test.go"):
+                mm = _re.search(r"^package (\w+)", open(_os.path.join(d, f)).read(), _re.M)
+                return mm.group(1) if mm else None
+        return None
+    hd = _os.path.join(wt, hint) if hint else None
+    if hd and _os.path.isdir(hd) and pk(hd) == want:
+        return hint
+    best = None
+    for root, dirs, files in _os.walk(wt):
+        if "/.git" in root:
+            continue
+        if any(f.endswith(".go") for f in files) and pk(root) == want:
+            rel = "./" + _os.path.relpath(root, wt)
+            # prefer an ancestor/descendant of the hinted directory
+            score = len(_os.path.commonprefix([rel, hint or ""]))
+            if best is None or score > best[0]:
+                best = (score, rel)
+    return best[1] if best else hint
+
 def run(cmd, cwd):
     r = subprocess.run(cmd, cwd=cwd, shell=True, capture_output=True, text=True, env=env)
     return r.returncode, (r.stdout + r.stderr)
@@ -34,6 +65,8 @@ try:
         if pkgdir.endswith("...") or not os.path.isdir(os.path.join(wt, pkgdir)):
             pkgdir = "./" + os.path.dirname(f)
     # the demo's package clause decides the directory when ambiguous
+    if not os.environ.get("SEED_PKGDIR") and demos:
+        pkgdir = pkgdir_for_demo(wt, demos[0], pkgdir)
     for d in demos:
         shutil.copy(d, os.path.join(wt, pkgdir))
     cmd = f"go test -mod=mod -vet=off -count=1 -run 'Benign|Demo|Equiv' {pkgdir}"
